@@ -14,6 +14,7 @@ import (
 	"fmt"
 	"go/types"
 	"hash"
+	"os"
 
 	"golang.org/x/crypto/ripemd160"
 )
@@ -112,13 +113,13 @@ func init() {
 		rt + "HashBytes": func(fr *frame, a []value) value {
 			return fr.i.hashBytes(int(asInt64(a[0])), a[1].([]value))
 		},
-		"crypto/sha256.New":                  newDigest(256),
-		"crypto/sha512.New":                  newDigest(512),
-		"crypto/sha1.New":                    newDigest(1),
-		"golang.org/x/crypto/ripemd160.New":  newDigest(160),
-		"crypto/sha256.Sum256":               sum(256),
-		"crypto/sha512.Sum512":               sum(512),
-		"crypto/sha1.Sum":                    sum(1),
+		"crypto/sha256.New":                 newDigest(256),
+		"crypto/sha512.New":                 newDigest(512),
+		"crypto/sha1.New":                   newDigest(1),
+		"golang.org/x/crypto/ripemd160.New": newDigest(160),
+		"crypto/sha256.Sum256":              sum(256),
+		"crypto/sha512.Sum512":              sum(512),
+		"crypto/sha1.Sum":                   sum(1),
 	} {
 		externals[k] = v
 	}
@@ -177,6 +178,30 @@ func (i *interpreter) kdfIndependentOf(key []value) {
 	}
 }
 
+// isSymbolicKdfOut: is key (element for element) the symbolic output of a
+// recorded ideal-KDF call?
+func (i *interpreter) isSymbolicKdfOut(key []value) bool {
+	if allConcrete(key) {
+		return false
+	}
+	for _, rec := range i.kdfs {
+		if len(rec.out) != len(key) {
+			continue
+		}
+		same := true
+		for k := range key {
+			if rec.out[k] != key[k] {
+				same = false
+				break
+			}
+		}
+		if same {
+			return true
+		}
+	}
+	return false
+}
+
 func init() {
 	externals["golang.org/x/crypto/nacl/secretbox.Seal"] = func(fr *frame, a []value) value {
 		i := fr.i
@@ -215,13 +240,44 @@ func init() {
 			return tuple{[]value(nil), false}
 		}
 		i.kdfIndependentOf(key)
-		// a recorded seal with the same (box, nonce, key)? decided symbolically
-		for _, r := range i.seals {
+		// is box, element for element, the very output of one recorded seal?
+		// Then only that seal can match: an ideal AEAD never produces the
+		// same box for two different seals (fresh symbolic boxes carry no
+		// other constraint that would tell them apart)
+		same := -1
+		for k, r := range i.seals {
 			if len(r.box) != len(box) {
+				continue
+			}
+			id := true
+			for j := range box {
+				if box[j] != r.box[j] {
+					id = false
+					break
+				}
+			}
+			if id {
+				same = k
+				break
+			}
+		}
+		// a recorded seal with the same (box, nonce, key)? decided symbolically
+		for k, r := range i.seals {
+			if len(r.box) != len(box) || (same >= 0 && k != same) {
+				continue
+			}
+			// the independence axiom applied structurally (no solver call):
+			// a symbolic KDF output never equals an independently chosen
+			// concrete key
+			if (allConcrete(key) && i.isSymbolicKdfOut(r.key)) || (allConcrete(r.key) && i.isSymbolicKdfOut(key)) {
 				continue
 			}
 			eq := i.tt.BAnd(i.bytesEqTerm(box, r.box), i.tt.BAnd(i.bytesEqTerm(nonce, r.nonce), i.bytesEqTerm(key, r.key)))
 			if i.decide(eq) {
+				if os.Getenv("SYMGO_DEBUG_SEAL") != "" {
+					fmt.Fprintf(os.Stderr, "[seal] Open matched a recorded seal: key concrete=%v (record %v) nonce concrete=%v (record %v) box concrete=%v (record %v) msglen=%d eq=%s\n",
+						allConcrete(key), allConcrete(r.key), allConcrete(nonce), allConcrete(r.nonce), allConcrete(box), allConcrete(r.box), len(r.msg), eq.String())
+				}
 				return tuple{appendValues(out, r.msg), true}
 			}
 		}
